@@ -23,8 +23,8 @@ STEPS = ["startTestRun", "stopTestRun", "stop()"] + ["test:" + o for o in OUTCOM
 STACKS = ["TestResult", "TextTestResult", "MultiTestResult(TestResult)", "MultiTestResult(TestResult, TestResult)",
           "ThreadsafeForwardingResult(TestResult)", "ExtendedToOriginalDecorator(TestResult)",
           "ExtendedToOriginalDecorator(py27 double)", "ExtendedToStreamDecorator(stream double)", "Tagger(TestResult)",
-          "ExtendedToOriginalDecorator(py26 double)"]
-VERDICT_CHECKED = (0, 1, 2, 3, 4, 5, 8)
+          "ExtendedToOriginalDecorator(py26 double)", "ExtendedToOriginalDecorator(Tagger(TestResult))"]
+VERDICT_CHECKED = (0, 1, 2, 3, 4, 5, 8, 10)
 
 
 def _exc_info():
@@ -70,9 +70,13 @@ def build(stack, ffmode):
     elif stack == 8:
         inner = [TestResult(failfast=ff)]
         outer = Tagger(inner[0], {"x"}, set())
-    else:
+    elif stack == 9:
         inner = [doubles.Python26TestResult()]
         outer = ExtendedToOriginalDecorator(inner[0])
+    else:
+        # a decorated result without a failfast attribute of its own: the decorator keeps the flag itself
+        inner = [TestResult(failfast=ff)]
+        outer = ExtendedToOriginalDecorator(Tagger(inner[0], {"x"}, set()))
     if ffmode == 2:
         outer.failfast = True
     return outer, inner, stream
@@ -84,6 +88,9 @@ def applicable(stack, ffmode):
     if stack == 9 and ffmode == 1:
         return False     # a 2.6-style result has no failfast
     return True
+
+
+SUITE_STACKS = [0, 1, 2, 3, 4, 5, 10]
 
 
 def report(res, test, outcome, as_details):
@@ -174,12 +181,12 @@ def run_history(stack, ffmode, steps, as_details):
 
 def h_hist(stack: int, ffmode: int, n: int, s0: int, s1: int, s2: int, s3: int, s4: int, as_details: bool) -> bool:
     """
-    pre: 0 <= stack < 10 and 0 <= ffmode < 3 and 0 <= n <= 5
+    pre: 0 <= stack < 11 and 0 <= ffmode < 3 and 0 <= n <= 5
     pre: 0 <= s0 < 9 and 0 <= s1 < 9 and 0 <= s2 < 9 and 0 <= s3 < 9 and 0 <= s4 < 9
     post: _
     """
     try:
-        sk = ch.sel("stack", stack, 10)
+        sk = ch.sel("stack", stack, 11)
         fm = ch.sel("ffmode", ffmode, 3)
         if not applicable(sk, fm):
             return True
@@ -288,12 +295,12 @@ def run_suite(stack, ffmode, o0, o1, o2, mode):
 
 def h_suite(stack: int, ffmode: int, o0: int, o1: int, o2: int, mode: int) -> bool:
     """
-    pre: 0 <= stack < 6 and 0 <= ffmode < 3 and 0 <= o0 < 6 and 0 <= o1 < 6 and 0 <= o2 < 6 and 0 <= mode < 2
+    pre: 0 <= stack < 7 and 0 <= ffmode < 3 and 0 <= o0 < 6 and 0 <= o1 < 6 and 0 <= o2 < 6 and 0 <= mode < 2
     post: _
     """
     try:
         md = ch.sel("mode", mode, 2)
-        sk = ch.sel("stack", stack, 6) if md == 0 else 0
+        sk = SUITE_STACKS[ch.sel("stack", stack, 7)] if md == 0 else 0
         fm = ch.sel("ffmode", ffmode, 3 if md == 0 else 2)
         v = dict(mode=md, stack=sk, ffmode=fm, o0=ch.sel("o0", o0, 6), o1=ch.sel("o1", o1, 6), o2=ch.sel("o2", o2, 6))
     except ch.Prune:
@@ -310,7 +317,7 @@ def h_suite(stack: int, ffmode: int, o0: int, o1: int, o2: int, mode: int) -> bo
 def _hist_shards(tier):
     out = []
     top = 3 if tier == "quick" else 4
-    for sk in range(10):
+    for sk in range(11):
         for fm in range(3):
             if not applicable(sk, fm):
                 continue
@@ -322,17 +329,17 @@ def _hist_shards(tier):
 HARNESSES = [
     Harness("hist", h_hist, _hist_shards,
             bounds={"quick": "every history of <= 3 steps over {startTestRun, stopTestRun, stop(), one test with each of the 6 outcomes "
-                             "(given as exc_info/plain or as details)} x 10 result stacks (TestResult, TextTestResult, MultiTestResult x1/x2, "
+                             "(given as exc_info/plain or as details)} x 11 result stacks (TestResult, TextTestResult, MultiTestResult x1/x2, "
                              "ThreadsafeForwardingResult, ExtendedToOriginalDecorator over TestResult / 2.7 / 2.6 doubles, "
-                             "ExtendedToStreamDecorator with StreamFailFast, Tagger) x failfast {off, set before wrapping, set after wrapping}; "
+                             "ExtendedToStreamDecorator with StreamFailFast, Tagger, ExtendedToOriginalDecorator over a Tagger) x failfast {off, set before wrapping, set after wrapping}; "
                              "wasSuccessful()/shouldStop checked after every call on the outer object and every underlying result; "
                              "TextTestResult summary parsed at each stopTestRun",
                     "thorough": "histories of <= 4 steps"},
             rule="non-trivial = at least one test reported", twin_fix={"stack": 0, "ffmode": 0, "n": 2},
-            fidelity=lambda seed: [(s, f, 3, 0, 4, 1, 0, 0, d) for s in range(10) for f in range(3) if applicable(s, f) for d in (False, True)],
+            fidelity=lambda seed: [(s, f, 3, 0, 4, 1, 0, 0, d) for s in range(11) for f in range(3) if applicable(s, f) for d in (False, True)],
             observe=lambda stack, ffmode, n, s0, s1, s2, s3, s4, ad: run_history(stack, ffmode, [s0, s1, s2, s3, s4][:n], ad)["problems"],
             describe=lambda stack, ffmode, n, s0, s1, s2, s3, s4, ad: run_history(stack, ffmode, [s0, s1, s2, s3, s4][:n], ad)),
-    Harness("suite", h_suite, lambda tier: [({"mode": 0, "stack": s, "ffmode": f}, 900) for s in range(6) for f in range(3)] +
+    Harness("suite", h_suite, lambda tier: [({"mode": 0, "stack": s, "ffmode": f}, 900) for s in range(7) for f in range(3)] +
             [({"mode": 1, "ffmode": f}, 900) for f in range(2)],
             bounds={"quick": "a unittest.TestSuite of three generated TestCases (every triple of outcomes) run against 6 result stacks x "
                              "failfast modes: number of tests dispatched; TestProgram/TestToolsTestRunner in-process (--failfast on/off): "
